@@ -608,7 +608,7 @@ func sectionFaults(rng *vh.Rng, corpus []wlCase) {
 	runParallel(len(cases), 6, "faults", func(i int, col *collector) { runWriteLoopCase(cases[i], col, sec) })
 	// descriptor exhaustion: strictly one case at a time, nothing else running
 	var serial []wlCase
-	m := 3
+	m := 2
 	if args.Thorough {
 		m = 6
 	}
@@ -653,6 +653,7 @@ func runParallel(n, workers int, section string, f func(i int, col *collector)) 
 		}
 	}(fdCount())
 	cols := make([]*collector, n)
+	tRun := time.Now()
 	var wg sync.WaitGroup
 	sem := make(chan struct{}, workers)
 	for i := 0; i < n; i++ {
@@ -673,12 +674,54 @@ func runParallel(n, workers int, section string, f func(i int, col *collector)) 
 		}(i)
 	}
 	wg.Wait()
+	tCases := time.Since(tRun)
 	reapWG.Wait()
+	tReap := time.Since(tRun) - tCases
 	all := &collector{section: section}
 	for _, c := range cols {
 		all.merge(c)
 	}
-	all.finish()
+	// the model driver is single threaded: every case is one driver session of its own (it starts with w.reset), so the cases
+	// are cut into contiguous groups that run on separate driver processes; the answers are put together in case order
+	groups := 8
+	if n < groups {
+		groups = n
+	}
+	var ans []string
+	if groups > 1 {
+		parts := make([][]string, groups)
+		errs := make([]error, groups)
+		var dwg sync.WaitGroup
+		for g := 0; g < groups; g++ {
+			dwg.Add(1)
+			go func(g int) {
+				defer dwg.Done()
+				var lines []string
+				for _, c := range cols[g*n/groups : (g+1)*n/groups] {
+					if c == nil {
+						continue
+					}
+					for _, k := range c.chks {
+						lines = append(lines, k.line)
+					}
+				}
+				parts[g], errs[g] = vh.Batch(args.Driver, lines)
+			}(g)
+		}
+		dwg.Wait()
+		for g := 0; g < groups; g++ {
+			if errs[g] != nil {
+				res.Fatal(args.Out, "driver (%s): %v", section, errs[g])
+			}
+			ans = append(ans, parts[g]...)
+		}
+		if len(ans) != len(all.chks) {
+			res.Fatal(args.Out, "driver (%s): %d answers for %d lines", section, len(ans), len(all.chks))
+		}
+	}
+	all.finishWith(ans)
+	res.Note("%s: %d cases on %d workers %.1fs, waiting for idle chunk writers to close %.1fs, model driver + comparison %.1fs", section, n, workers,
+		tCases.Seconds(), tReap.Seconds(), (time.Since(tRun) - tCases - tReap).Seconds())
 }
 
 // ---------------------------------------------------------------------------------------------
@@ -1215,6 +1258,6 @@ func sectionSystem(rng *vh.Rng, corpus []sysCase) {
 			res.Sample(map[string]interface{}{"section": "system", "input": c})
 		}
 	}
-	runParallel(len(cases), 8, "system", func(i int, col *collector) { runSysCase(cases[i], col, sec) })
+	runParallel(len(cases), 16, "system", func(i int, col *collector) { runSysCase(cases[i], col, sec) })
 	res.Done(sec)
 }
